@@ -9,6 +9,7 @@ import (
 	"testing"
 
 	"github.com/samsarahq/thunder/federation"
+	"github.com/samsarahq/thunder/graphql"
 	"pgregory.net/rapid"
 
 	"verifharness/ev"
@@ -447,6 +448,62 @@ func elements(d *Doc) map[string]elem {
 	return out
 }
 
+// convertedElements lists fields, arguments and input fields (with their type written as
+// Ref.String writes it) of everything reachable from the roots of a built gateway schema.
+func convertedElements(sc *graphql.Schema) map[string]string {
+	out := map[string]string{}
+	seen := map[graphql.Type]bool{}
+	var walk func(t graphql.Type)
+	walk = func(t graphql.Type) {
+		switch t := t.(type) {
+		case *graphql.NonNull:
+			walk(t.Type)
+		case *graphql.List:
+			walk(t.Type)
+		case *graphql.Object:
+			if t == nil || seen[t] {
+				return
+			}
+			seen[t] = true
+			for fn, f := range t.Fields {
+				if fn == "__typename" || strings.HasPrefix(fn, "__") {
+					continue
+				}
+				out["field "+t.Name+"."+fn] = f.Type.String()
+				for an, at := range f.Args {
+					out["arg "+t.Name+"."+fn+"("+an+")"] = at.String()
+					walk(at)
+				}
+				walk(f.Type)
+			}
+		case *graphql.Union:
+			if t == nil || seen[t] {
+				return
+			}
+			seen[t] = true
+			for _, o := range t.Types {
+				walk(o)
+			}
+		case *graphql.InputObject:
+			if t == nil || seen[t] {
+				return
+			}
+			seen[t] = true
+			for fn, ft := range t.InputFields {
+				out["input "+t.Name+"."+fn] = ft.String()
+				walk(ft)
+			}
+		}
+	}
+	if sc.Query != nil {
+		walk(sc.Query)
+	}
+	if sc.Mutation != nil {
+		walk(sc.Mutation)
+	}
+	return out
+}
+
 func stripNonNull(r *Ref) string {
 	switch r.Kind {
 	case "NON_NULL":
@@ -631,8 +688,24 @@ func check(c Case, renames []map[string]string) (nt bool, labels []string, sig s
 				sig, err = "panic", fmt.Errorf("ConvertVersionedSchemas panicked: %v", r)
 			}
 		}()
-		if _, cerr := federation.ConvertVersionedSchemas(c.input(nil)); cerr != nil {
+		conv, cerr := federation.ConvertVersionedSchemas(c.input(nil))
+		if cerr != nil {
 			sig, err = "convert-fails", fmt.Errorf("MergeIntrospectionSchemas succeeds but ConvertVersionedSchemas fails: %v", cerr)
+			return
+		}
+		// the schema the gateway validates and plans with declares, for everything reachable
+		// from its roots, exactly the types of the merged introspection result
+		want := elements(base)
+		for k, got := range convertedElements(conv.Schema) {
+			e, ok := want[k]
+			if !ok {
+				sig, err = "convert-differs", fmt.Errorf("the gateway schema (ConvertVersionedSchemas) has %q, which the merged introspection schema does not have", k)
+				return
+			}
+			if e.ref != nil && e.ref.String() != got {
+				sig, err = "convert-differs", fmt.Errorf("the gateway schema (ConvertVersionedSchemas) declares %q as %s, the merged introspection schema as %s", k, got, e.ref)
+				return
+			}
 		}
 	}()
 	if err != nil {
